@@ -1084,7 +1084,40 @@ class Engine:
         return [(st, node.value)]
 
     def ex_JoinedStr(self, node, st):
-        return [(st, Sym(fresh('fstr', StrS), STR))]
+        """f-string: the embedded expressions are evaluated (they may raise, they have effects);
+        the result is an opaque string, except that -- exactly like `template.format(ints)` -- a
+        text without separators whose fields are integers in d/x/o/b notation is a plain name"""
+        exprs = [v.value for v in node.values if isinstance(v, ast.FormattedValue)]
+        outs = []
+        for (s1, vals) in self.ev_many(exprs, st):
+            if isinstance(vals, Raise):
+                outs.append((s1, vals))
+                continue
+            r = Sym(fresh('fstr', StrS), STR, fresh=True)
+            tmpl, ok = '', True
+            for v in node.values:
+                if isinstance(v, ast.Constant) and isinstance(v.value, str):
+                    tmpl += v.value.replace('{', '{{').replace('}', '}}')
+                elif isinstance(v, ast.FormattedValue):
+                    spec = ''
+                    if v.format_spec is not None:
+                        parts = v.format_spec.values
+                        if len(parts) == 1 and isinstance(parts[0], ast.Constant):
+                            spec = ':' + str(parts[0].value)
+                        else:
+                            ok = False
+                    if v.conversion not in (-1, None):
+                        ok = False
+                    tmpl += '{' + spec + '}'
+                else:
+                    ok = False
+            lib = self.intr
+            if ok and vals and hasattr(lib, '_plain_name_template') \
+                    and lib._plain_name_template(tmpl) and all(lib._is_int(a) for a in vals):
+                from .lib import SIMPLE_NAME
+                s1.assume(SIMPLE_NAME(r.t))
+            outs.append((s1, r))
+        return outs
 
     def ex_Name(self, node, st):
         n = node.id
